@@ -10,10 +10,12 @@ echo $NAMES | tr ' ' '\n' | xargs -P 4 -I{} bash -c 'run_one {}'
 {
 echo "| seed | property | check exit | verdict line |"
 echo "|---|---|---|---|"
-for n in $NAMES; do
+for n in $(ls seeded | grep -E "^C[0-9]+-[0-9]+$" | sort -t- -k1,1 -k2,2n); do
+  [ -f build/seedlogs/$n.log ] || continue
   l=$(grep '^seed=' build/seedlogs/$n.log | head -1)
   rc=$(echo "$l" | sed -n 's/.* rc=\([0-9]*\) .*/\1/p')
   v=$(echo "$l" | sed 's/.*:: //' | cut -c1-220 | tr '|' '/')
+  if echo "$l" | grep -q 'no-failing-input-found'; then v="$v ... no-failing-input-found"; fi
   echo "| $n | ${n%-*} | ${rc:-?} | \`$v\` |"
 done
 } > seeded/RESULTS.md
